@@ -296,7 +296,7 @@ void LatexPrinter::bvisit(const Interval &x)
         s << "\\left(";
     else
         s << "\\left[";
-    s << *x.get_start() << ", " << *x.get_end();
+    s << apply(x.get_start()) << ", " << apply(x.get_end());
     if (x.get_right_open())
         s << "\\right)";
     else
